@@ -1540,11 +1540,11 @@ def hash_in_columns_1_5(sh):
     return False
 
 
-def gen_problem(rng, wild=0.0, size=None, tame=False):
+def gen_problem(rng, wild=0.0, size=None, tame=False, width=128):
     """A well-formed problem of G_core: a list of sentences [{block, shape, mask, tags}], with the context
     conditions of section 5.2 (numbers unique per kind, references resolve, IMP covers MODE, each per-cell datum
     in one block only).  Returns (sentences, plan, coverage Counter)."""
-    g = Gen(rng, wild)
+    g = Gen(rng, wild, soft=52 if width >= 128 else 30)
     r = rng
     ncell = size or r.choice([2, 2, 3, 3, 4, 5, 6, 9])
     nsurf = r.choice([2, 3, 4, 5, 6, 8, 12])
@@ -1580,11 +1580,13 @@ def gen_problem(rng, wild=0.0, size=None, tame=False):
             sh = fn()
             if hash_in_columns_1_5(sh):
                 continue         # that would be MCNP's vertical input format: not a sentence of G_core
+            if max(len(l) for l in render(sh).split(NL)) > width:
+                continue         # lines never exceed the limit of the version under test
             fallback = sh
             if not tame or not any(known_feature(t) for t in features(sh)):
                 return sh
         if fallback is None:
-            raise RuntimeError("gen_core: cannot keep '#' out of columns 1-5")
+            raise RuntimeError("gen_core: cannot keep '#' out of columns 1-5 and the lines within %d columns" % width)
         return fallback
 
     def add(block, shape):
